@@ -1028,7 +1028,13 @@ class DirectoryContentsTask : public Task {
       if (llvm::sys::fs::is_symlink_file(*it->status())) {
         SmallString<256> resolvedPath;
         if (!llvm::sys::fs::real_path(it->path(), resolvedPath)) {
-          if (path.startswith(resolvedPath)) {
+          // Compare whole path components: a link to a sibling whose name is a
+          // prefix of this directory's name (src-gen/link -> ../src) does not
+          // point to a parent directory.
+          StringRef resolved = resolvedPath;
+          if (path == resolved ||
+              (path.startswith(resolved) &&
+               (resolved.endswith("/") || path[resolved.size()] == '/'))) {
             continue;
           }
         }
